@@ -197,7 +197,9 @@ func RunOne(t *testing.T, spec Spec) (res *Result) {
 	if res.post != nil {
 		post := res.post
 		res.post = nil
-		post(res)
+		if !raceOnly { // the race-detector build only looks for crashes and the detector's reports
+			post(res)
+		}
 	}
 	if raceOnly {
 		var keep []string
